@@ -613,7 +613,7 @@ class TriggerManager(AoE2Object):
 
     def _find_trigger_tree_nodes_recursively(self, trigger, known_node_indexes: List[int]) -> None:
         found_node_indexes = TriggerManager._find_trigger_tree_nodes(trigger)
-        unknown_node_indexes = [i for i in found_node_indexes if i not in known_node_indexes]
+        unknown_node_indexes = [i for i in dict.fromkeys(found_node_indexes) if i not in known_node_indexes]
 
         if len(unknown_node_indexes) == 0:
             return
